@@ -623,8 +623,16 @@ def write_off(V, F, var=None):
     k = 3
     for v in V:
         out.append(_join([fmt_float(c, fl) for c in v], var, k) + "\n" + _blank(var, k)); k += 1
-    for f in F:
-        out.append(_join([str(len(f))] + [str(i) for i in f], var, k) + "\n" + _blank(var, k)); k += 1
+    col = var.get("off_colors")       # optional colour after the indices of a face: colormap index, or integer RGB / RGBA in 0..255
+    for nf, f in enumerate(F):
+        extra = []
+        if col == "index":
+            extra = [str((nf * 7 + 3) % 256)]
+        elif col == "rgb":
+            extra = [str((nf * 37) % 256), str((nf * 91 + 5) % 256), str(255 - nf % 256)]
+        elif col == "rgba":
+            extra = [str((nf * 37) % 256), str((nf * 91 + 5) % 256), str(255 - nf % 256), "255"]
+        out.append(_join([str(len(f))] + [str(i) for i in f] + extra, var, k) + "\n" + _blank(var, k)); k += 1
     return "".join(out)
 
 
@@ -857,6 +865,8 @@ def self_test():
         assert g["attrs"][("GEO::Mesh::edges", "w")]["values"] == [[0.5, -1.0]]
         assert read_off(write_off(V, [[0, 1, 2, 3], [1, 4, 2]], var))["F"] == [[0, 1, 2, 3], [1, 4, 2]]
         assert read_off(write_off(V, [], var))["V"] == V
+        for col in ("index", "rgb", "rgba"):
+            assert read_off(write_off(V, [[0, 1, 2, 3], [1, 4, 2]], dict(var, off_colors=col)))["F"] == [[0, 1, 2, 3], [1, 4, 2]]
         t = read_tet(write_tet(V, [[0, 1, 2, 4]], var))
         assert t["V"] == V and t["C"] == [[0, 1, 2, 4]]
         x = read_xyz(write_xyz(V, [[0.0, 0.0, 1.0]] * 5, var))
